@@ -25,7 +25,7 @@ from harness.popspec import Sub
 from harness.core import coq_list
 
 THEOREMS = ['C16_streams_disjoint', 'C16_int_seed_determines', 'C16_generator_advanced', 'C16_second_call_disjoint',
-            'C16_restarting_overlaps']
+            'C16_restarting_overlaps', 'C16_block_sizes', 'C16_calls_compose', 'C16_distinct_seeds_disjoint']
 HEADER = '''From Coq Require Import List Arith Bool.
 From Chi Require Import Model.Seeds.
 Import ListNotations.
